@@ -3,9 +3,10 @@ import Exetera.Gen.BoolLiterals
 /-!
 # Model of the schema-typed import transforms (property C06)
 
-Mirrors, with every fix of `fixes/{D28,D29,NC06a,NC06b,NC06c}_*.patch` applied:
+Mirrors, with every fix of `fixes/{D28,D29,NC06a,NC06b,NC06c,NC06d}_*.patch` applied:
 
-* `operations.get_byte_map`, `categorical_transform`, `leaky_categorical_transform` and
+* `operations.get_byte_map`, `categorical_transform` (`categoricalTransformChecked`; the kernel as found before NC06d is
+  kept as `categoricalTransform`), `CategoricalImporter.import_part`, `leaky_categorical_transform` and
   `LeakyCategoricalImporter.import_part` (free-text offsets accumulated across chunks),
 * `numeric_bool_transform` (blank trimming, the regenerated literal table `Gen.boolLiterals`, validation modes,
   exception codes) and `NumericImporter.import_part` for `bool`,
@@ -135,16 +136,63 @@ def catRows (bm : ByteMap) (c : Chunk) : (n i : Nat) → List Int → Except Err
         | .error e => .error e
         | .ok chunk' => catRows bm c n (i + 1) chunk'
 
+/-- **as found** (before `fixes/NC06d_*.patch`): the kernel returned nothing; a row that matches no key keeps the `0` the
+    staging array was created with. Kept for the witness of NC06d (`Witness/C06.lean`); the kernel of the repaired code is
+    `categoricalTransformChecked`, which writes the very same array (`Lemmas/TransformsCatChecked.lean`). -/
 def categoricalTransform (bm : ByteMap) (c : Chunk) : Except Err (List Int) :=
   withCol c true "column_inds[i_c]" (catRows bm c (c.inds.length - 1) 0 (List.replicate c.rows 0))
 
-/-- `CategoricalImporter`: the field's data after the given chunks -/
+/-- **as found**: `CategoricalImporter` wrote whatever the kernel left in the staging array -/
 def categoricalImport (cats : List (Bytes × Int)) : List Chunk → List Int → Except Err (List Int)
   | [], data => .ok data
   | c :: cs, data =>
     match categoricalTransform (getByteMap cats) c with
     | .error e => .error e
     | .ok chunk => categoricalImport cats cs (data ++ chunk)
+
+/-! ### categorical_transform / CategoricalImporter with fix NC06d: a cell that equals no key is refused -/
+
+/-- the row loop with fix NC06d: besides `chunk` it carries `first_unmatched` (`none` = the code's `-1`), set by
+    `if not matched and first_unmatched == -1: first_unmatched = row_idx` at the end of every row. `matched` is "the key scan
+    wrote a value" (`matchRow` returns `some`). -/
+def catRowsChecked (bm : ByteMap) (c : Chunk) : (n i : Nat) → List Int → Option Nat → Except Err (List Int × Option Nat)
+  | 0, _, chunk, fu => .ok (chunk, fu)
+  | n + 1, i, chunk, fu =>
+    if i ≥ chunk.length then .ok (chunk, fu)
+    else
+      match matchRow bm c i with
+      | .error e => .error e
+      | .ok (_, _, none) => catRowsChecked bm c n (i + 1) chunk (if fu.isNone then some i else fu)
+      | .ok (_, _, some v) =>
+        match setE chunk i v "chunk[row_idx]" with
+        | .error e => .error e
+        | .ok chunk' => catRowsChecked bm c n (i + 1) chunk' fu
+
+/-- `categorical_transform` (fix NC06d): the filled staging array and the number of the first row of the chunk whose text
+    equals none of the keys (`return first_unmatched`) -/
+def categoricalTransformChecked (bm : ByteMap) (c : Chunk) : Except Err (List Int × Option Nat) :=
+  withCol c true "column_inds[i_c]" (catRowsChecked bm c (c.inds.length - 1) 0 (List.replicate c.rows 0) none)
+
+/-- what `CategoricalImporter.import_part` raises for a cell that is no category (a `ValueError` naming field, text, row) -/
+def notACategory : Err := .valueError "is not one of the categories"
+
+/-- `CategoricalImporter.import_part` (fix NC06d): `unmatched = ops.categorical_transform(…)`; `if unmatched != -1: raise
+    ValueError(…)`; otherwise the chunk is written. (The message is built from `column_inds[col_idx, unmatched]`,
+    `[…, unmatched + 1]` and the slice of `column_vals` between them — subscripts the kernel has just read.) -/
+def categoricalImportPart (bm : ByteMap) (c : Chunk) : Except Err (List Int) :=
+  match categoricalTransformChecked bm c with
+  | .error e => .error e
+  | .ok (_, some _) => .error notACategory
+  | .ok (chunk, none) => .ok chunk
+
+/-- `CategoricalImporter` (fix NC06d): the field's data after the given chunks, or the error of the first chunk that holds
+    a cell which is no category -/
+def categoricalImportChecked (cats : List (Bytes × Int)) : List Chunk → List Int → Except Err (List Int)
+  | [], data => .ok data
+  | c :: cs, data =>
+    match categoricalImportPart (getByteMap cats) c with
+    | .error e => .error e
+    | .ok chunk => categoricalImportChecked cats cs (data ++ chunk)
 
 /-! ## leaky_categorical_transform and LeakyCategoricalImporter -/
 
